@@ -24,10 +24,10 @@ def plan(ctx):
     k = P.per_interp_shards(ctx)
     for v in ctx.producers:
         if ctx.tier == "quick":
-            cases = P.corpus_cases(ctx, v, n_files=25, n_w3=40, modes=4, max_file_bytes=40000, w1_max_bytes=150000)
+            cases = P.corpus_cases(ctx, v, n_w9=0, n_files=25, n_w3=40, modes=4, max_file_bytes=40000, w1_max_bytes=150000)
             cases += P.w9_cases(ctx, 480)
         else:
-            cases = P.corpus_cases(ctx, v, n_files=500, n_w3=600, modes=60, max_file_bytes=120000, max_w4_bytes=200000)
+            cases = P.corpus_cases(ctx, v, n_w9=0, n_files=500, n_w3=600, modes=60, max_file_bytes=120000, max_w4_bytes=200000)
             cases += P.w9_cases(ctx, 9600)
         shards.extend(P.split(ctx, v, cases, k, "C07:", extra={"docs": True}))
     return shards
